@@ -225,7 +225,11 @@ class workq:
 
         jobs = [self.id2job[jid] for jid in jobids]
         for j in jobs:
-            j.finish_event.wait()
+            if not j.done:
+                # do not wait on the event of a finished job: gevent parks a wait() that
+                # arrives while the set() notification is still pending on that very
+                # notification, and cancels it when the last earlier waiter goes away
+                j.finish_event.wait()
             if j.drop:
                 del self.id2job[j.jobid]
         return jobs
